@@ -58,6 +58,24 @@ func newAddon() *tax.AddonDef {
 			},
 		},
 		Extensions: extensions,
+		Tags: []*tax.TagSet{
+			{
+				Schema: bill.ShortSchemaPayment,
+				List: []*cbc.Definition{
+					{
+						Key: TagVATCash,
+						Name: i18n.String{
+							i18n.EN: "VAT Cash",
+							i18n.PT: "IVA de Caixa",
+						},
+						Desc: i18n.String{
+							i18n.EN: "Receipt issued under the VAT cash accounting scheme.",
+							i18n.PT: "Recibo emitido no âmbito do regime de IVA de Caixa.",
+						},
+					},
+				},
+			},
+		},
 		Normalizer: normalize,
 		Scenarios:  scenarios,
 		Validator:  validate,
